@@ -160,6 +160,11 @@ def diff_snapshots(sa, sb, rtol=1e-7, atol=1e-9, name_map=None, reversed_names=(
                 if c in FLOW_PROPORTIONAL and "mdot_from_kg_per_s" in ra:
                     # flows that agree within atol carry that absolute slack into everything proportional to them
                     r_tol = rtol + 4 * m_tol / max(abs(ra["mdot_from_kg_per_s"]), 1e-300)
+                if c == "v_mean_m_per_s" and "normfactor_from" in ra:
+                    # the same switch acts per section (absolute pressures incl. the ambient pressure at the interpolated
+                    # heights of interior nodes, threshold relative to the to-end): a single section can fall under it in one
+                    # orientation only, which moves the pipe mean by at most 0.5e-5 relative
+                    r_tol = max(r_tol, 1e-5)
                 if c == "v_mean_m_per_s" and "normfactor_from" in ra and \
                         abs(ra["p_from_bar"] - ra["p_to_bar"]) <= 3e-5 * (abs(ra["p_to_bar"]) + 1.1):
                     # gas branches whose end pressures agree within 1e-5 (relative) use the from-pressure as
